@@ -170,16 +170,16 @@ CHECKS['C09'] = (
     'dyn_reloc_tables_exact. Correspondence-only: get_symbol_by_name, the no-hash count fallback, the .dynstr by-name fallback and all error behaviour.',
     'DESIGN.md §6 C09')
 CHECKS['C04'] = (
-    'Lean 4 theorems: form round trip for all 45 forms x 32 configurations x all in-range operands; regenerated form table / abbrev / CU / TU structs = Spec (rfl), parser registered '
-    'under each form name = operand class of the form code; iter_DIEs = preorder flatten with parents (mutual induction over tree and forest, sibling shortcut included) given the '
-    'per-entry cache function; tiling; unit-relative references; correspondence of the full DIE model (abbrev parse, parse_DIE, indirect cascade, translation, top-DIE deferred hook, '
-    'children/sibling walk, references, type units) on Lean-encoded forests',
-    'Proof of every layer: forms, abbreviation tables (abbrev_roundtrip), entries (die_roundtrip incl. DW_FORM_indirect chains and implicit_const, top_die_roundtrip), value translation, '
-    'iteration (iter_dies_exact with no hypothesis about the cache or decoder), children/parents, unit and type-unit headers v2-5 with unit_chain and tiling to the declared length, '
-    'unit- and section-relative references.',
-    'ref_sig8_partial covers .debug_types only: DW_FORM_ref_sig8 to a DWARF 5 type unit in .debug_info raises KeyError (known finding sig8-v5-type-unit, judged by the harness). '
-    'Hypotheses: the UnitCtx of a unit (structs of its header, abbreviation table at debug_abbrev_offset) with UnitOK/SecsOK — the glue from header to context is correspondence-only; '
-    'the cache refinement of _get_cached_DIE is C10\'s subject. Legacy DW_FORM_ref (code 2) is special-cased in the model, not tied.',
+    'Lean 4 theorems: END-TO-END debug_info_exact / debug_types_exact — for every well-formed forest description (units of DWARF 2-5, both formats, every unit type, abbreviation tables '
+    'placed anywhere in .debug_abbrev behind arbitrary gaps and shared between units) the model of iter_CUs()/iter_TUs() + iter_DIEs() on the Spec encoding yields exactly the described units '
+    'and, per unit, the preorder flattening with resolved attribute values, parents, children and sizes tiling to the declared length; the model in the statement is the one the driver runs '
+    '(regenerated registry, bundles and raw2name); layers below it: form round trip (46 forms incl. legacy DW_FORM_ref x 32 configurations), abbreviation tables, entries with DW_FORM_indirect chains '
+    'and implicit_const, top DIE with deferred translation, value translation, unit/type-unit headers, references (unit-relative, section-relative, sig8 over .debug_types with the whole-section scan); '
+    'correspondence of the full DIE model on Lean-encoded forests',
+    'Proof of every layer and of their composition: the only hypotheses of the section theorems are the description\'s decidable well-formedness (wfForestB, evaluated by the driver on every case) and '
+    'address size in {4, 8}.',
+    'DW_FORM_ref_sig8 to a DWARF 5 type unit in .debug_info raises KeyError (known finding sig8-v5-type-unit, judged by the harness; ref_sig8_debug_types is full for .debug_types). '
+    'Not connected by a theorem: the driver\'s linear section-relative lookup vs C13\'s bisect model of get_CU_containing (each proved against the Spec separately); the cache refinement of _get_cached_DIE is C10\'s subject.',
     'DESIGN.md §6 C04')
 
 CHECKS['C02'] = (
